@@ -417,13 +417,13 @@ Fixpoint has_dup (l : list derive_trait) : bool :=
   | x :: r => existsb (derive_trait_eqb x) r || has_dup r
   end.
 
-(* a trait requested again, under the same bounds, by a later (non-adjacent) attribute *)
+(* a trait requested again by a later attribute, under the same or under different bounds (two impls of one
+   trait for one type overlap whatever their where-clauses say) *)
 Fixpoint has_cross_dup (l : list dw) : bool :=
   match l with
   | [] => false
   | d :: r =>
-      existsb (fun o => list_eqb generic_eqb (dw_generics d) (dw_generics o)
-                        && existsb (fun t => existsb (derive_trait_eqb t) (dw_traits d)) (dw_traits o)) r
+      existsb (fun o => existsb (fun t => existsb (derive_trait_eqb t) (dw_traits d)) (dw_traits o)) r
       || has_cross_dup r
   end.
 
